@@ -115,6 +115,9 @@ public:
     return true;
   }
   value_t pop_command(call_scope_t&) {
+    // the default report and the copy made for the command being executed must stay
+    if (report_stack.size() <= 2)
+      throw std::logic_error(_("There is no pushed report to pop"));
     pop_report();
     return true;
   }
